@@ -63,13 +63,18 @@ def check_ast(ast, acc, case):
     if got[0] != 'ok':
         acc.violation('compile-exception', case, 'Compiler.compile raised ' + got[1])
         return
-    g, e = P.p_c09(got[1]), P.p_c09(exp)
-    if g != e:
-        i = next((i for i, (x, y) in enumerate(zip(g, e)) if x != y), min(len(g), len(e)))
-        field = 'name' if g[i:i + 1] and e[i:i + 1] and g[i]['name'] != e[i]['name'] else 'steps'
-        acc.violation('substitution-' + field, case, 'pickle %d: %s differ from literal placeholder substitution' % (i, field),
-                      observed=g[i:i + 1], expected=e[i:i + 1])
-        return False
+    e = P.p_c09(exp)
+    for route, res in (('fresh compiler', got), ('compiler that compiled other documents before', P.compile_reused(ast))):
+        if res[0] != 'ok':
+            acc.violation('compile-exception', case, 'Compiler.compile (%s) raised %s' % (route, res[1]))
+            return False
+        g = P.p_c09(res[1])
+        if g != e:
+            i = next((i for i, (x, y) in enumerate(zip(g, e)) if x != y), min(len(g), len(e)))
+            field = 'name' if g[i:i + 1] and e[i:i + 1] and g[i]['name'] != e[i]['name'] else 'steps'
+            acc.violation('substitution-' + field, case, '%s: pickle %d: %s differ from literal placeholder substitution' % (route, i, field),
+                          observed=g[i:i + 1], expected=e[i:i + 1])
+            return False
     return True
 
 
